@@ -2,7 +2,7 @@
     (the OBSERVED behaviour satisfies the property's executable oracle, written against the
     venue conventions [venue_symbol] / [venue_channel] and the subscribed set - it uses neither
     the model's subscription ids, nor its table, nor its [transform]). *)
-From BV Require Export Base.Common Model.SubId.
+From BV Require Export Base.Common Model.SubId Model.SubIdL2.
 From Coq Require Export String Ascii.
 
 (** One case = one (connector, subscription kind) stream: the subscriptions handed to the real
@@ -328,10 +328,97 @@ Definition batch_prop (b : list dsub * vres) : bool :=
   | VPanic => false
   end.
 
+(* ---- Binance OrderBooksL2: attribution of depth updates ----------------------------------- *)
+
+Definition levels_eqb := list_eqb (pair_eqb Z.eqb Z.eqb).
+Definition l2item_eqb (a b : l2item) : bool :=
+  match a, b with
+  | L2Ev k e t sq te bs as_, L2Ev k' e' t' sq' te' bs' as' =>
+      N.eqb k k' && exch_eqb e e' && Z.eqb t t' && N.eqb sq sq' && optZ_eqb te te'
+      && levels_eqb bs bs' && levels_eqb as_ as'
+  | L2Unident x, L2Unident y => String.eqb x y
+  | L2InvalidSeq p f, L2InvalidSeq p' f' => N.eqb p p' && N.eqb f f'
+  | L2Err x, L2Err y => String.eqb x y
+  | _, _ => false
+  end.
+Definition l2out_eqb (a b : l2out) : bool :=
+  match a, b with
+  | L2Deser, L2Deser | L2Panic, L2Panic => true
+  | L2Out x, L2Out y => list_eqb l2item_eqb x y
+  | _, _ => false
+  end.
+
+Definition l2_wf (e : exch) (subs : list sub) : bool :=
+  match e with
+  | BinanceSpot => forallb (fun s => match kind_of (snd s) with KSpot => true | _ => false end) subs
+  | BinanceFuturesUsd => forallb (fun s => match kind_of (snd s) with KPerp => true | _ => false end) subs
+  | _ => false
+  end.
+
+Definition l2_corr (e : exch) (subs : list sub) (omap : list (string * N)) (snaps : list snap)
+           (init_ok : bool) (msgs : list (l2msg * l2out)) : bool :=
+  let m := l2_map_subs e subs in
+  forallb (fun id => option_eqb N.eqb (m id) (lookup omap id)) (map (l2_sid e) subs ++ map fst omap) &&
+  match l2_init e subs snaps, init_ok with
+  | Some t, true => list_eqb l2out_eqb (l2_run e t (map fst msgs)) (map snd msgs)
+  | None, false => true
+  | _, _ => false
+  end.
+
+(** oracle.  A depth update names its market by "s".  If no subscribed instrument has that
+    venue symbol: unidentifiable.  Otherwise every event it yields carries the key of a
+    subscription with that symbol, and if it is the first update for that market in the case
+    and valid per the venue rule against the snapshot fetched FOR THAT INSTRUMENT, it yields
+    exactly one update event with that key, the connector's exchange id, sequence = u, the
+    message's event time, engine time (futures) and levels. *)
+Definition l2_expected_engine_time (e : exch) (m : l2msg) : option Z :=
+  match e with BinanceFuturesUsd => Some (l_T m) | _ => None end.
+
+Definition l2_only_keys (ss : list sub) (o : l2out) : bool :=
+  match o with
+  | L2Out l => forallb (fun x => match x with L2Ev k _ _ _ _ _ _ => key_in k ss | L2Unident _ => false | _ => true end) l
+  | L2Deser | L2Panic => false
+  end.
+
+Fixpoint l2_prop_run (e : exch) (subs : list sub) (snaps : list snap) (seen : list string)
+         (msgs : list (l2msg * l2out)) : bool :=
+  match msgs with
+  | [] => true
+  | (m, o) :: tl =>
+      let ss := filter (fun s => String.eqb (venue_symbol e (snd s)) (l_sym m)) subs in
+      (match ss with
+       | [] => match o with L2Out [L2Unident _] => true | _ => false end
+       | _ :: _ =>
+           l2_only_keys ss o &&
+           (if negb (existsb (String.eqb (l_sym m)) seen) &&
+               forallb (fun s => match snap_of snaps (fst s) with
+                                 | Some sn => first_update_valid e (snd sn) m
+                                 | None => false
+                                 end) ss
+            then match o with
+                 | L2Out [L2Ev k ex te sq ten bs as_] =>
+                     key_in k ss && exch_eqb ex e && Z.eqb te (l_E m) && N.eqb sq (l_u m)
+                     && optZ_eqb ten (l2_expected_engine_time e m)
+                     && levels_eqb bs (l_bids m) && levels_eqb as_ (l_asks m)
+                 | _ => false
+                 end
+            else true)
+       end) && l2_prop_run e subs snaps (l_sym m :: seen) tl
+  end.
+
+Definition l2_prop (e : exch) (subs : list sub) (snaps : list snap) (init_ok : bool)
+           (msgs : list (l2msg * l2out)) : bool :=
+  (* a snapshot for every subscribed instrument: init must succeed *)
+  (if forallb (fun s => match snap_of snaps (fst s) with Some _ => true | None => false end) subs
+   then init_ok else true) &&
+  l2_prop_run e subs snaps [] msgs.
+
 (** the driver's case type: one market stream, or one batch of builder-validation observations *)
 Inductive case :=
 | CStream (c : stream_case)
-| CSupport (triples : list triple_obs) (batches : list (list dsub * vres)).
+| CSupport (triples : list triple_obs) (batches : list (list dsub * vres))
+| CL2 (e : exch) (subs : list sub) (omap : list (string * N)) (snaps : list snap) (init_ok : bool)
+      (msgs : list (l2msg * l2out)).
 
 Definition judge (c : case) : N :=
   match c with
@@ -339,4 +426,8 @@ Definition judge (c : case) : N :=
   | CSupport ts bs =>
       judge_code (forallb triple_corr ts && forallb batch_corr bs)
                  (forallb triple_prop ts && forallb batch_prop bs) 0
+  | CL2 e subs omap snaps init_ok msgs =>
+      if l2_wf e subs
+      then judge_code (l2_corr e subs omap snaps init_ok msgs) (l2_prop e subs snaps init_ok msgs) 0
+      else 0%N
   end.
